@@ -575,7 +575,11 @@ func (b *Backend) execute(c net.Conn, r *Recv, p Plan) bool {
 		total += len(t)
 	}
 	var hb strings.Builder
-	fmt.Fprintf(&hb, "HTTP/1.1 %d %s\r\nContent-Type: %s\r\nX-Backend: %s/%d\r\n", status, http.StatusText(status), ct, b.Name, r.Attempt)
+	if p.CT == "-" { // a backend that does not say what its answer is
+		fmt.Fprintf(&hb, "HTTP/1.1 %d %s\r\nX-Backend: %s/%d\r\n", status, http.StatusText(status), b.Name, r.Attempt)
+	} else {
+		fmt.Fprintf(&hb, "HTTP/1.1 %d %s\r\nContent-Type: %s\r\nX-Backend: %s/%d\r\n", status, http.StatusText(status), ct, b.Name, r.Attempt)
+	}
 	// an end-to-end header the backend sends on two lines (like Set-Cookie or Link), stamped with the attempt
 	fmt.Fprintf(&hb, "X-Verif-Multi: %s/%d/1\r\nX-Verif-Multi: %s/%d/2\r\n", b.Name, r.Attempt, b.Name, r.Attempt)
 	keys := make([]string, 0, len(p.Hdr))
